@@ -50,3 +50,51 @@ package metric
 //@   loop 1
 //@     invariant forall(k, uint64, has(c.collection, k) == (old(has(c.collection, k)) && !(visited(k) && old(c.collection[k].Group) == group)))
 //@     invariant forall(k, uint64, has(c.collection, k) ==> c.collection[k] == old(c.collection[k]))
+
+// ---- C16: re-keying the stored series when a metric gets a new label keeps group and value ----
+//@ pure metric.HashLabelValues github.com/prometheus/client_golang/prometheus.NewDesc
+
+// Every stored series has one value per label name (type invariant of the collectors).
+// C16: after the label set has grown every series still carries the group and the value of a
+// series stored before (so a later expiry of the group still finds it).
+//@ func (*ConstGaugeCollector).UpdateLabels
+//@   prop C16
+//@   requires c.collection != nil && forall(h, uint64, has(c.collection, h) ==> len(c.collection[h].LabelValues) == len(c.labelNames))
+//@   modifies c.labelNames, c.desc, c.collection, allelems(string)
+//@   let n0 := old(len(c.labelNames))
+//@   ensures [group-and-value-kept] forall(k, uint64, has(c.collection, k) ==> exists(h, uint64, old(has(c.collection, h)) && old(c.collection[h]).Group == c.collection[k].Group && old(c.collection[h]).Value == c.collection[k].Value))
+//@   loop 1
+//@     invariant 0 <= iter() && iter() <= len(c.labelNames) && previousLabelsMap != nil && fresh(previousLabelsMap)
+//@     invariant forall(x, string, has(previousLabelsMap, x) ==> 0 <= previousLabelsMap[x] && previousLabelsMap[x] < len(c.labelNames))
+//@   loop 2
+//@     invariant 0 <= iter() && iter() <= len(labels) && len(c.labelNames) >= n0
+//@     invariant forall(x, string, has(previousLabelsMap, x) ==> 0 <= previousLabelsMap[x] && previousLabelsMap[x] < n0)
+//@     invariant c.collection == old(c.collection) && entries(c.collection) == old(entries(c.collection))
+//@   loop 3
+//@     invariant 0 <= nvisited() && newCollection != nil && fresh(newCollection) && newCollection != c.collection && c.collection == old(c.collection) && entries(c.collection) == old(entries(c.collection))
+//@     invariant forall(x, string, has(previousLabelsMap, x) ==> 0 <= previousLabelsMap[x] && previousLabelsMap[x] < n0)
+//@     invariant forall(k, uint64, has(newCollection, k) ==> exists(h, uint64, has(c.collection, h) && c.collection[h].Group == newCollection[k].Group && c.collection[h].Value == newCollection[k].Value))
+//@   loop 4
+//@     invariant 0 <= iter() && iter() <= len(c.labelNames) && fresh(newLabelsValues)
+//@     invariant newCollection != nil && fresh(newCollection) && newCollection != c.collection && entries(newCollection) == atloop(entries(newCollection)) && entries(c.collection) == old(entries(c.collection))
+
+//@ func (*ConstCounterCollector).UpdateLabels
+//@   prop C16
+//@   requires c.collection != nil && forall(h, uint64, has(c.collection, h) ==> len(c.collection[h].LabelValues) == len(c.labelNames))
+//@   modifies c.labelNames, c.desc, c.collection, allelems(string)
+//@   let n0 := old(len(c.labelNames))
+//@   ensures [group-and-value-kept] forall(k, uint64, has(c.collection, k) ==> exists(h, uint64, old(has(c.collection, h)) && old(c.collection[h]).Group == c.collection[k].Group && old(c.collection[h]).Value == c.collection[k].Value))
+//@   loop 1
+//@     invariant 0 <= iter() && iter() <= len(c.labelNames) && previousLabelsMap != nil && fresh(previousLabelsMap)
+//@     invariant forall(x, string, has(previousLabelsMap, x) ==> 0 <= previousLabelsMap[x] && previousLabelsMap[x] < len(c.labelNames))
+//@   loop 2
+//@     invariant 0 <= iter() && iter() <= len(labels) && len(c.labelNames) >= n0
+//@     invariant forall(x, string, has(previousLabelsMap, x) ==> 0 <= previousLabelsMap[x] && previousLabelsMap[x] < n0)
+//@     invariant c.collection == old(c.collection) && entries(c.collection) == old(entries(c.collection))
+//@   loop 3
+//@     invariant 0 <= nvisited() && newCollection != nil && fresh(newCollection) && newCollection != c.collection && c.collection == old(c.collection) && entries(c.collection) == old(entries(c.collection))
+//@     invariant forall(x, string, has(previousLabelsMap, x) ==> 0 <= previousLabelsMap[x] && previousLabelsMap[x] < n0)
+//@     invariant forall(k, uint64, has(newCollection, k) ==> exists(h, uint64, has(c.collection, h) && c.collection[h].Group == newCollection[k].Group && c.collection[h].Value == newCollection[k].Value))
+//@   loop 4
+//@     invariant 0 <= iter() && iter() <= len(c.labelNames) && fresh(newLabelsValues)
+//@     invariant newCollection != nil && fresh(newCollection) && newCollection != c.collection && entries(newCollection) == atloop(entries(newCollection)) && entries(c.collection) == old(entries(c.collection))
